@@ -465,6 +465,32 @@ theorem flowvar_single_assignment {m : M} (f : Nat) (v : Val) (hb : (m.fvs f).va
   · intro w
     simp [M.fvSet, hb]
 
+/-! ### The model has no junk: its "unreachable" branches are unreachable -/
+
+/-- In every reachable state each active frame has a script position, every frame below the top
+    stands at the `nest` action that called the frame above it, and a result travelling back
+    always finds the `nest` action that is waiting for it.  Hence the two defensive branches of
+    `step` (`pc = none` for an active frame, a pending result at a non-`nest` action) never
+    execute: the machine is exactly the interpreter described, nothing else. -/
+theorem call_stack_well_formed {m : M} (h : Reachable m) : WFStack m := by
+  induction h with
+  | start prog tests =>
+    exact ⟨trivial, fun r rest _ hst _ => by simp [M.start] at hst⟩
+  | inject x hr hidle _ => exact wf_inject (reachable_inv hr) hidle x
+  | step hr ih => exact wf_step (reachable_inv hr) ih
+
+theorem active_frame_has_position {m : M} (h : Reachable m) {top : Nat} {rest : List Nat}
+    (hs : m.stack = top :: rest) : ∃ k, (m.rt top).pc = some k := by
+  have := (call_stack_well_formed h).frames
+  rw [hs] at this
+  exact Option.isSome_iff_exists.mp (frames_top_pc this)
+
+theorem pending_result_meets_its_nest {m : M} (h : Reachable m) {top : Nat} {rest : List Nat} {res : Res}
+    (hs : m.stack = top :: rest) (hp : m.pending = some res) :
+    ∃ k r' md v, (m.rt top).pc = some k ∧ (m.rt top).script[k]? = some (.nest r' md v) := by
+  obtain ⟨k, r', md, v, h1, h2, _⟩ := (call_stack_well_formed h).pendingNest top rest res hs hp
+  exact ⟨k, r', md, v, h1, h2⟩
+
 /-! ### Non-vacuity: concrete reachable machines exercising the hypotheses -/
 
 /-- r0 = `[nest 1 catch, yield 1]`, r1 = `[rop 0 stop, nest 0 catch, yield 2]`:
